@@ -64,6 +64,7 @@ type wOp struct {
 	N    int       `json:"n,omitempty"`
 	Seed uint64    `json:"seed,omitempty"`
 	Set  *optDelta `json:"set,omitempty"`
+	Fail int       `json:"fail,omitempty"` // readfrom: > 0, the source fails at its Fail-th Read call (C08)
 }
 
 func (o wOp) String() string {
